@@ -119,8 +119,11 @@ func evalAll(srcs []string) ([]*vk.Verdict, []info, error) {
 		i := idx[j]
 		ins[i].out = o.Ref.Stdout
 		vs[i] = o.V
-		if o.V != nil && (o.V.Class == "cl-rejects" || o.V.Class == "xgo-parser-rejects") {
-			cls := "converted-does-not-compile"
+		if o.V != nil && (strings.HasPrefix(o.V.Class, "cl-rejects") || o.V.Class == "xgo-parser-rejects") {
+			cls := "converted-does-not-compile" + strings.TrimPrefix(o.V.Class, "cl-rejects") // keeps a ":go-constant-panic/…" suffix
+			if o.V.Class == "xgo-parser-rejects" {
+				cls = "converted-does-not-compile"
+			}
 			if noTargetRe.MatchString(o.V.Detail) {
 				// a function literal was turned into a lambda where the callee gives no function type
 				// (builtin append, interface{} parameters)
